@@ -17,7 +17,7 @@ _DATA_CACHE = {}
 
 def _load(name):
     if name not in _DATA_CACHE:
-        path = os.path.join(core.REPO, "datasets", f"ec-benchmark_dataset_{name}_1year.txt")
+        path = os.path.join(os.environ.get("VERIF_DATA_REPO", "/repo"), "datasets", f"ec-benchmark_dataset_{name}_1year.txt")
         arr = np.genfromtxt(path, delimiter=";", skip_header=1, usecols=(1, 2), dtype=float)
         _DATA_CACHE[name] = arr[np.all(np.isfinite(arr), axis=1)]
     return _DATA_CACHE[name]
